@@ -15,7 +15,7 @@ def initEnv (h : Header) (payload : Bytes) : Env :=
    ("self.data_size", .int h.dataSize), ("self.annotations_size", .int h.annSize), ("self.flags", .int h.flags)]
 
 def runAddPayload (cfg : PyIR.Cfg) (body : Stmt) (h : Header) (payload : Bytes) : Res :=
-  exec cfg body (h.annSize + 2) none (initEnv h payload) ⟨[], [], []⟩
+  exec cfg body (h.annSize + 2) none (initEnv h payload) ⟨[], [], [], []⟩
 
 /-- the message object afterwards / the error raised, as the hand model reports it -/
 def toDecoded (h : Header) : Res → Option (Except DecErr Decoded)
